@@ -212,6 +212,17 @@ def link(name, objs, flavor, libs=()):
     return out
 
 
+def harness_headers_hash():
+    h = hashlib.sha256()
+    d = os.path.join(VERIF, "harness")
+    for f in sorted(os.listdir(d)):
+        if f.endswith(".h"):
+            with open(os.path.join(d, f), "rb") as fh:
+                h.update(f.encode())
+                h.update(fh.read())
+    return h.hexdigest()
+
+
 def engine_objects():
     """E1 runtime: compiled WITHOUT instrumentation."""
     vh = verif_tree_hash(("engine",))
@@ -224,7 +235,7 @@ def engine_objects():
 def build_e1_harness(name, extra_flags=()):
     """Harness TU (instrumented) + Galois objects (instrumented) + engine."""
     src = os.path.join(VERIF, "harness", name + ".cpp")
-    vh = verif_tree_hash(("engine",)) + header_hash()
+    vh = verif_tree_hash(("engine",)) + header_hash() + harness_headers_hash()
     gobjs = galois_objects("tsan")
     hobj = compile_one(src, "tsan",
                        tuple(extra_flags) + ("-fno-access-control",),
@@ -236,7 +247,7 @@ def build_e1_harness(name, extra_flags=()):
 def build_e2_harness(name, flavor="asan", extra_flags=(), with_galois=True,
                      libs=()):
     src = os.path.join(VERIF, "harness", name + ".cpp")
-    vh = verif_tree_hash(("seqx",)) + header_hash()
+    vh = verif_tree_hash(("seqx",)) + header_hash() + harness_headers_hash()
     gobjs = galois_objects(flavor) if with_galois else []
     hobj = compile_one(src, flavor,
                        tuple(extra_flags) + ("-fno-access-control",),
